@@ -339,10 +339,10 @@ func runC05(r *hx.Result, cfg hx.Config) {
 
 	rounds := 9
 	if cfg.Tier == "thorough" {
-		rounds = 60
+		rounds = 300
 	}
 	if cfg.Search {
-		rounds = 30
+		rounds = 60
 	}
 	others := []int{0, 5, 60}
 	for n := 0; n < rounds; n++ {
